@@ -56,12 +56,41 @@ def real_render(jinja2, cfg, src):
         return "X:" + type(e).__name__
 
 
+_used = {}
+
+
+def used_overlay(jinja2, cfg):
+    """an overlay (varying newline_sequence / keep_trailing_newline and the other options) of a base
+    environment that has ALREADY been used: it has lexed and rendered before the overlay is taken"""
+    base = _used.get("base")
+    if base is None:
+        base = _used["base"] = jinja2.Environment()
+        base.from_string("used\n{# c #}{% raw %}x{% endraw %}\n").render()
+        list(base.lex("a\r\nb"))
+    ov = _used.get(cfg.key())
+    if ov is None:
+        ov = _used[cfg.key()] = base.overlay(**cfg.kwargs())
+    return ov
+
+
+def overlay_render(jinja2, cfg, src):
+    try:
+        return "D " + used_overlay(jinja2, cfg).from_string(src).render()
+    except jinja2.TemplateSyntaxError:
+        return "ERR"
+    except Exception as e:
+        return "X:" + type(e).__name__
+
+
 def check_plain(ctx, jinja2, cfg, src, model_p=None):
     """oracle on one plain source; returns failure text or None"""
     want = spec_plain(src, cfg.nl, cfg.keep)
     got = real_render(jinja2, cfg, src)
     if got != "D " + want:
         return "render %r != spec_plain %r" % (got, want)
+    got = overlay_render(jinja2, cfg, src)
+    if got != "D " + want:
+        return "overlay of a used environment renders %r != spec_plain %r" % (got, want)
     return None
 
 
@@ -174,6 +203,41 @@ def run(ctx):
             ctx.model_mismatch("K-render render_data vs Template.render (%s)" % kind, case, rl, want, None)
             continue
         ctx.validated()
+    run_raw_whitespace(ctx, jinja2)
+
+
+def run_raw_whitespace(ctx, jinja2):
+    """raw blocks whose body is whitespace only (and ordinary bodies), at the start of the source, after a
+    text on the same line and after a line break, under all four trim_blocks / lstrip_blocks settings and
+    3 x 2 newline_sequence / keep flags: the body is output verbatim apart from the effects of its own tags
+    (extracted spec_trim of the one-raw-block skeleton, newline-substituted)"""
+    from . import c12
+    pres = ["", "a", "a\n", "  ", "a\n  ", "\n"]
+    bodies = [" ", "   ", "\t", " \t ", "", "  \n  ", "\n", "b", " b "]
+    posts = ["", "c", "\nc", "  ", "\n"]
+    cases = []
+    for pre in pres:
+        for body in bodies:
+            for post in posts:
+                for mods in ("nnnn", "nmnn", "nnmn", "nnpn", "nnnp", "nnnm", "mnnn", "pnnn"):
+                    k = c12.skel([pre, "r:%s:%s" % (mods, L.enc_str(body)), post])
+                    for t_ in (False, True):
+                        for l_ in (False, True):
+                            cases.append((L.Cfg("default", t_, l_, nl=ctx.rng.choice(NLS), keep=False), k))
+    if ctx.tier != "thorough":
+        cases = [cs for i, cs in enumerate(cases) if i % 2 == 0 or cs[0].lstrip]
+    klines = ctx.driver("lex", ["K %s %s" % (c.enc(), k) for c, k in cases])
+    for (c, k), kl in zip(cases, klines):
+        src, spec_v, _ = (L.dec_str(x) for x in kl.split(" "))
+        want = spec_v.replace("\n", c.nl)
+        case = {"kind": "raw-whitespace", "cfg": c.describe(), "src": src, "skeleton": k}
+        ctx.case(sample=case if len(src) > 25 else None, key=("rawws", c.key(), k))
+        ctx.count("oraw_whitespace")
+        got = real_render(jinja2, c, src)
+        if got != "D " + want:
+            ctx.reject(case, "raw block: render %r, expected %r" % (got, want), "C11:rawws:%s:%s" % (k, c.key()))
+        else:
+            ctx.validated()
 
 
 def expected_comment_raw(c, pre, mid, post):
@@ -241,11 +305,19 @@ def replay(ctx, data):
     print("real tokens :", L.real_run(jinja2, L.env_for(jinja2, c), src))
     print("model tokens:", L.model_runs(ctx, [(c, src)])[0].canon())
     print("render      :", real_render(jinja2, c, src))
+    print("overlay of a used environment:", overlay_render(jinja2, c, src))
     if case.get("kind", "plain") == "plain" and not has_start(c, src):
         w = check_plain(ctx, jinja2, c, src)
         print("spec_plain  :", repr(spec_plain(src, c.nl, c.keep)))
         if w:
             ctx.reject(case, w, data.get("signature"))
+    elif case.get("kind") == "raw-whitespace":
+        kl = ctx.driver("lex", ["K %s %s" % (c.enc(), case["skeleton"])])[0]
+        want = L.dec_str(kl.split(" ")[1]).replace("\n", c.nl)
+        got = real_render(jinja2, c, src)
+        print("expected    :", repr(want))
+        if got != "D " + want:
+            ctx.reject(case, "raw block: render %r, expected %r" % (got, want), data.get("signature"))
     elif "pre" in case:
         w = check_comment_raw(jinja2, c, src, case["kind"], case["pre"], case["mid"], case["post"])
         print("expected    :", repr(expected_comment_raw(c, case["pre"], case["mid"], case["post"])))
